@@ -40,7 +40,7 @@ def random_env(prog, seed, npts=3):
     gw = rng.uniform(0.2, 1.0, B + (d,))
     bf = {"u": jet(), "v": jet()}
     fields = {}
-    for name, decl in prog.get("inputs", {}).items():
+    for name, decl in sorted(prog.get("inputs", {}).items()):
         shape = tuple(decl["shape"])
         arr = np.empty(shape, dtype=object)
         for idx in np.ndindex(shape) if shape else [()]:
@@ -50,7 +50,7 @@ def random_env(prog, seed, npts=3):
             arr[idx] = j
         fields[name] = {"shape": shape, "physical": decl.get("physical", False), "jets": arr}
     params = {}
-    for name, shape in prog.get("params", {}).items():
+    for name, shape in sorted(prog.get("params", {}).items()):
         params[name] = rng.uniform(-1, 1, tuple(shape)) if shape else float(rng.uniform(0.5, 1.5))
     bd = prog.get("boundary")
     boundary = None if bd is None else (d - 1 - bd[0], bd[1])
